@@ -33,6 +33,8 @@ CHECKS = {
          'explicit-state search over operation histories on live objects with a fresh-replay reference'),
  'C10': ('model_checking', '4 C10', 'Part A: every call history up to depth 3 (thorough 4) over a per-configuration alphabet of 13-19 operations (parse ok/failing, lex consumed/abandoned/dont_ignore, scan, abandoned interactive sessions, other instances) on 9 configurations incl. a stateful Indenter: every step must equal the same operation on a fresh instance. Part B: all schedules with <= 2 (thorough 3) preemptions of 2-3 real threads sharing one cold instance, under a cooperative scheduler built on sys.monitoring whose scheduling points are discovered from object-graph snapshots; every thread must observe its sequential result; the idempotent warm-up obligation is checked.',
          'explicit-state search over call histories + stateless preemption-bounded schedule exploration of real threads'),
+ 'C11': ('exploration', '4 C11', 'A menu of 19 LALR feature grammars (flag cube, imports, templates, priorities, 130 terminals, two start symbols, bytes, newline terminals) + LALR-acceptable SHAPE members x lexer x option sets x four implementations (direct, save/load through pickle bytes, cache hit on a path shared between option sets, stand-alone module executed in a fresh namespace) x parse / interactive feed with accepts() at every step / scan x every input up to the bound: canonical observations (trees with positions and meta, or error class/position/sets) must be equal.',
+         'bounded exhaustive differential enumeration of (grammar, options, implementation, operation, input)'),
 }
 NOT_YET = {}
 def main():
